@@ -60,16 +60,56 @@ def load_family(repo: Repo, family: str) -> List[Entry]:
 
 
 def families_in_parser(repo: Repo) -> List[str]:
-    """Families merged into TracesParser.handlers, in merge order (read from __init__)."""
+    """Families merged into TracesParser.handlers.
+
+    The merge may be written in many equivalent ways (repeated ``update`` calls in ``__init__``, a helper that loops over
+    a tuple of tables, ``{**a, **b}``, ``ChainMap`` ...).  What is decided here is only WHICH registries take part:
+    every ``<package>.trace_handlers.<family>.handlers`` object imported by ``traces_parser`` and referenced anywhere in
+    the module outside the import statements.  The order of first reference is kept; since rule C17/R2 shows the key
+    sets to be pairwise disjoint the order has no effect on the merged table."""
     tp = repo.module("traces_parser")
-    init = repo.method("traces_parser", "TracesParser", "__init__")
-    order = []
-    for st in ast.walk(init):
-        if isinstance(st, ast.Call) and isinstance(st.func, ast.Attribute) and st.func.attr == "update" \
-                and ast.unparse(st.func.value) == "self.handlers" and st.args and isinstance(st.args[0], ast.Name):
-            target = tp.imports.get(st.args[0].id)
-            if target and target.endswith(".handlers"):
-                order.append(target.split(".")[-2])
+    aliases = {}
+    for local, target in tp.imports.items():
+        if target.endswith(".handlers") and ".trace_handlers." in target:
+            aliases[local] = target.split(".")[-2]
+    if not aliases:
+        return []
+    order: List[str] = []
+    merged_names = set()
+    for node in ast.walk(tp.tree):
+        if isinstance(node, (ast.Import, ast.ImportFrom)):
+            continue
+        if isinstance(node, ast.Name) and isinstance(node.ctx, ast.Load) and node.id in aliases:
+            merged_names.add(node.id)
+    # keep source order of first reference
+    refs = sorted(((n.lineno, n.col_offset, n.id) for n in ast.walk(tp.tree)
+                   if isinstance(n, ast.Name) and isinstance(n.ctx, ast.Load) and n.id in aliases), key=lambda r: r[:2])
+    # a family only counts as merged if its table flows into something other than a membership test
+    flows = set()
+    for node in ast.walk(tp.tree):
+        if isinstance(node, ast.Call):
+            for a in list(node.args) + [k.value for k in node.keywords]:
+                for n in ast.walk(a):
+                    if isinstance(n, ast.Name) and n.id in aliases:
+                        flows.add(n.id)
+        if isinstance(node, ast.Dict):
+            for k, v in zip(node.keys, node.values):
+                if k is None:
+                    for n in ast.walk(v):
+                        if isinstance(n, ast.Name) and n.id in aliases:
+                            flows.add(n.id)
+        if isinstance(node, (ast.Tuple, ast.List)):
+            for e in node.elts:
+                if isinstance(e, ast.Name) and e.id in aliases:
+                    flows.add(e.id)
+        if isinstance(node, ast.BinOp) and isinstance(node.op, ast.BitOr):
+            for n in (node.left, node.right):
+                if isinstance(n, ast.Name) and n.id in aliases:
+                    flows.add(n.id)
+    for _, _, name in refs:
+        fam = aliases[name]
+        if name in flows and fam not in order:
+            order.append(fam)
     return order
 
 
